@@ -114,7 +114,7 @@ def run_law(case, stt):
 # -- 2. incoherent dedispersion -------------------------------------------------------------------------------
 
 
-REFSEL = ["none", "center", "lo", "hi", "above", "below", "inside"]
+REFSEL = ["none", "center", "lo", "hi", "above", "below", "inside", "far_below"]
 
 
 @st.composite
@@ -133,6 +133,9 @@ def idd_case(draw):
     fr = ref_freq(spec, sel)
     rate = O.fq(spec["sr"])
     d1 = max(abs(O.disp_delay_s(F(1), f, fr) * rate) for f in labels)
+    if sel == "far_below" and len(labels) > 1:
+        dd = [O.disp_delay_s(F(1), f, fr) * rate for f in labels]
+        d1 = max(dd) - min(dd) or d1  # scale the DM by the spread across the band, not by the (huge) common delay
     sgn = draw(st.sampled_from([-1, 1]))
     if d1 > 0:
         want = draw(st.one_of(st.floats(0.0, 1.0), st.floats(0.0, 0.2), st.floats(0.8, 2.0), st.integers(0, 6).map(float))) * max(spec["n"], 4)
@@ -151,7 +154,9 @@ def ref_freq(spec, sel):
     cf = O.fq(spec["cf"])
     bw = O.fq(spec["sr"]) if spec["cls"] in G.BASEBAND else O.fq(spec["bw"])
     lo, hi = cf - bw * nchan / 2, cf + bw * nchan / 2
-    r = {"none": cf, "center": cf, "lo": lo, "hi": hi, "above": hi * F(3, 2), "below": lo * F(2, 3), "inside": lo + (hi - lo) * F(1, 3)}[sel]
+    r = {"none": cf, "center": cf, "lo": lo, "hi": hi, "above": hi * F(3, 2), "below": lo * F(2, 3), "inside": lo + (hi - lo) * F(1, 3),
+         # a reference far from the band: every delay is billions of samples, their SPREAD is what realigns the channels
+         "far_below": lo * F(1, 3000)}[sel]
     return F(float(r)) if sel != "none" else cf
 
 
